@@ -121,7 +121,11 @@ def check_crashes(res, ctx, jobs):
         hcases.append({"truth": [dict(o) for o in truth], "year": y,
                        "old": [[d, s] for d, s in old] if old is not None else None,
                        "new": [[d, s] for d, s in new], "crash": spec, "today": today, "avail": avail,
-                       "lookups": lookups, "stale_tmp": stale})
+                       "lookups": lookups, "stale_tmp": stale,
+                       # every third job over an existing year: the live name is a symbolic link to the file
+                       "live_symlink": bool(old is not None and len(hcases) % 3 == 2)})
+        if hcases[-1]["live_symlink"]:
+            st["live-file-is-symlink"] += 1
         total = len(render(new))
         n, cut = steps_of(spec, len(new), total)
         m1.append(crash_ints(old, new, n, cut, stale))
